@@ -79,7 +79,10 @@ def run_one(cli, sid, seed):
     th = []
     for x in eng.err_all:
         if x.startswith('verif {"ev":"Thread"'):
-            th.append(json.loads(x[len("verif "):]))
+            try:
+                th.append(json.loads(x[len("verif "):]))
+            except ValueError:
+                pass        # a line torn by another thread writing to stderr at the same moment (a panic message, for one)
     th.sort(key=lambda e: e["seq"])
     # merge: walk the commands with the client's own events (M_*) in order; everything else keeps its place
     main_ev = [e for e in th if e["a"].startswith("M_") or e["a"] == "A_Spawn"]
